@@ -454,6 +454,16 @@ def shard_fn(shard, nshards, seed, tier, exe, nhist):
         cid = "%d.%d" % (shard, i)
         cases.append((cid, cmds))
         meta[cid] = exp
+    if shard == 0:
+        # one node with 2^31 + 1 owners (the counter is 32 bits wide: every value up to UINT32_MAX-1 is a legitimate count): a release that is not the
+        # last one must not destroy it, the last one must.  Also 65537 and 2^24+1 owners.
+        for k, n in enumerate([65536, 1 << 24, 1 << 31]):
+            cmds = ["NEW 0 %d str x6f776e6564" % (900 + k), "GETN 0 %d" % n, "PUTN 0 1", "PUTN 0 %d" % (n - 1), "PUT 0"]
+            exp = [{}, {}, {"ret": 0, "dels": []}, {"ret": 0, "dels": []}, {"ret": 1, "dels": [900 + k]}]
+            cid = "0.owners%d" % k
+            cases.append((cid, cmds))
+            meta[cid] = exp
+            sh.count("many_owner_histories")
     results, crashes = core.run_script(exe, cases, tag="c05")
     cmdmap = dict(cases)
     for cr in crashes:
